@@ -1,40 +1,5 @@
-// S3 contracts for the limb-vector wrappers of spqlios/arithmetic/vec_znx.c and vec_znx_avx.c (DESIGN 3.S3).
-// Shape parameters are concrete per run (-D): RS AS BS limb counts; RM RA / AM AA / BM BA strides sl = nn*M + A;
-// ALIAS 0 none, 1 res==a, 2 res==b, 3 a==b; GQ limb of the padding ghost.  nn, data, G (coefficient), GL (limb)
-// and GPAD (padding offset) stay symbolic.  Element kernels are replaced by their S1 contracts.
-#include "vec_shape.h"
-
-#define VEC3_CONTRACT(cname, OP)                                                                                   \
-  void cname(const MODULE* module, int64_t* res, uint64_t res_size, uint64_t res_sl, const int64_t* a,             \
-             uint64_t a_size, uint64_t a_sl, const int64_t* b, uint64_t b_size, uint64_t b_sl)                     \
-      __CPROVER_requires(REQ_MODULE) __CPROVER_requires(REQ_SHAPE3)                                                \
-      __CPROVER_requires(__CPROVER_is_fresh(res, RES_BYTES))                                         \
-      __CPROVER_requires(REQ_A) __CPROVER_requires(REQ_B) __CPROVER_requires(REQ_GHOST)                            \
-      __CPROVER_assigns(__CPROVER_object_upto(res, RES_BYTES))                                       \
-      __CPROVER_ensures(RS == 0 || res[GL * res_sl + G] == OP(A_AT, B_AT))                                         \
-      __CPROVER_ensures(ENS_PAD) __CPROVER_ensures(ENS_TAIL)
-
-#define VEC2_CONTRACT(cname, OP)                                                                                   \
-  void cname(const MODULE* module, int64_t* res, uint64_t res_size, uint64_t res_sl, const int64_t* a,             \
-             uint64_t a_size, uint64_t a_sl)                                                                       \
-      __CPROVER_requires(REQ_MODULE) __CPROVER_requires(REQ_SHAPE2)                                                \
-      __CPROVER_requires(__CPROVER_is_fresh(res, RES_BYTES))                                         \
-      __CPROVER_requires(REQ_A) __CPROVER_requires(REQ_GHOST)                                                      \
-      __CPROVER_assigns(__CPROVER_object_upto(res, RES_BYTES))                                       \
-      __CPROVER_ensures(RS == 0 || res[GL * res_sl + G] == OP(A_AT))                                               \
-      __CPROVER_ensures(ENS_PAD) __CPROVER_ensures(ENS_TAIL)
-
-#define ID(x) (x)
-VEC3_CONTRACT(vec_znx_add__c, WADD); /*@vec_add_limb_value_pad_tail:C08,C13,C15,C07,C18*/
-VEC3_CONTRACT(vec_znx_sub__c, WSUB); /*@vec_sub_limb_value_pad_tail:C08,C13,C15,C07,C18*/
-VEC2_CONTRACT(vec_znx_negate__c, WNEG); /*@vec_negate_limb_value_pad_tail:C08,C13,C15,C07,C18*/
-VEC2_CONTRACT(vec_znx_copy__c, ID); /*@vec_copy_limb_value_pad_tail:C08,C13,C15,C18*/
-
-void vec_znx_zero__c(const MODULE* module, int64_t* res, uint64_t res_size, uint64_t res_sl)
-    __CPROVER_requires(REQ_MODULE) __CPROVER_requires(res_size == RS && res_sl == NN * RM + RA)
-    __CPROVER_requires(__CPROVER_is_fresh(res, RES_BYTES)) __CPROVER_requires(REQ_GHOST)
-    __CPROVER_assigns(__CPROVER_object_upto(res, RES_BYTES))
-    __CPROVER_ensures(RS == 0 || res[GL * res_sl + G] == 0) __CPROVER_ensures(ENS_PAD); /*@vec_zero_limb_value_pad:C08,C15*/
+// harnesses of the vec_znx S3 proofs (contracts in vec_znx_contracts.h)
+#include "vec_znx_contracts.h"
 
 // ---------------------------------------------------------------- harnesses
 #define GHOSTS() do { G = nondet_u64(); GL = nondet_u64(); GPAD = nondet_u64(); GX = nondet_u64(); } while (0)
